@@ -973,11 +973,12 @@ func TestVerif_C12(t *testing.T) {
 		if strings.Contains(levels, "A") {
 			k.parallel("A:rule-features", k.levelA)
 		}
-		if strings.Contains(levels, "B") {
-			k.parallel("B:small-states", k.levelB)
-		}
+		// the largest level last: if the deadline cuts the run short it cuts the tail of level B
 		if strings.Contains(levels, "C") {
 			k.parallel("C:saturated-shapes", k.levelC)
+		}
+		if strings.Contains(levels, "B") {
+			k.parallel("B:small-states", k.levelB)
 		}
 		k.outMu.Lock()
 		c.Extra("outcome_classes", k.outcomes)
